@@ -62,6 +62,37 @@ func ruleAllocPairing(ctx *Ctx, rule string, pkgs ...string) {
 						sameSeg = call.Call.Args[0]
 					}
 				}
+				if sameSeg == nil && ssaq.IsNew(f) {
+					// a helper that did not exist on the reference tree: the
+					// capacity test may lie in its callers; it must hold in the
+					// frame of every call chain from a reference-tree function
+					if owners, ok := q.Attributed(f); ok {
+						inst, all := 0, true
+						for _, on := range owners {
+							g := q.Func(on)
+							if g == nil {
+								all = false
+								continue
+							}
+							for _, a := range ssaq.Anchors(g) {
+								if a.Instr != ssa.Instruction(call) || len(a.Args) < 2 {
+									continue
+								}
+								inst++
+								w2, found := "hasCapacity("+a.Args[0]+".data, "+a.Args[1]+")", false
+								for _, at := range a.Atoms {
+									if at == w2 {
+										found = true
+									}
+								}
+								all = all && found
+							}
+						}
+						if inst > 0 && all {
+							sameSeg = call.Call.Args[0]
+						}
+					}
+				}
 				exemptWhy := allocPairExempt[fmt.Sprintf("%s | alloc #%d", ssaq.FuncName(f), k)]
 				// values derived from the address
 				derived := map[ssa.Value]bool{addr: true}
